@@ -29,8 +29,18 @@
 //!  E. nested PaintGlyph chains of depth 8..=20 timed in-process (growth-rate test);
 //!  F. one-byte deviations (5 values) of the first bytes of every corpus COLR table, up to 24 evenly
 //!     spaced colour glyphs painted under both cache answers, in supervised worker processes (silence watchdog).
+//!  N. (varidx.rs) every index the variable-paint code follows (varIndexBase, index-map entries of both
+//!     formats, outer / inner delta-set indices against 0/1/2 subtables incl. null offsets, wordDeltaCount
+//!     layouts) at seven locations, with a from-spec "absent delta set => paints like the default" oracle;
+//!  P. (varidx.rs) record lookups: base glyph lists of 1-9 records, clip range patterns, PaintColrGlyph
+//!     targets, PaintColrLayers ranges against the layer list length, exact value stream expected;
+//!  R. one format / flag / count / index / offset field of a compiled table set to boundary values;
+//!  S. (varidx.rs) colour lines of 0..255 stops around the inline capacity (32) of the stop vector;
+//!  T. (varidx.rs) a client implementing `pop_layer_with_mode` only: pops carry the mode of their push.
+//! See AUDIT.md for the site-by-site table these families come from.
 
 mod graph;
+mod varidx;
 
 use graph::*;
 use rayon::prelude::*;
@@ -374,7 +384,7 @@ fn judge(run: &Run, g: &Graph, font: &[u8], coords: &[f32], cache_ok: bool, deco
     }
     // (2a) graphs without PaintGlyph: result and callback stream must equal the reference interpreter's
     // exactly (so a cycle reported late, a spurious cycle error and an extra lap are all seen)
-    if let Some((exp_result, exp_events)) = simulate(g, cache_ok) {
+    if let Some((exp_result, exp_events)) = simulate(g, cache_ok, decompose) {
         acc.simulated += 1;
         let got_events: Option<Vec<SimEv>> = p
             .events
@@ -388,7 +398,8 @@ fn judge(run: &Run, g: &Graph, font: &[u8], coords: &[f32], cache_ok: bool, deco
                 Ev::PopLayer => Some(SimEv::PopLayer),
                 Ev::Fill(_) => Some(SimEv::Fill),
                 Ev::Cached(g) => Some(SimEv::Cached(*g)),
-                _ => None,
+                Ev::PushClipGlyph(_) => Some(SimEv::PushClipGlyph),
+                Ev::FillGlyph(_, has_xf, _) => Some(SimEv::FillGlyph(*has_xf)),
             })
             .collect();
         if exp_result.is_ok() != result.is_ok() {
@@ -1111,7 +1122,16 @@ fn body(run: &Run, replay: Option<&Value>) {
     // until exit; the monitor thread only reads it.
     let run_static: &'static Run = unsafe { &*(run as *const Run) };
     start_watchdog(run_static);
-    let quick = run.tier == Tier::Quick;
+    if std::env::var("C13_ONLY_NEW").is_ok() {
+        // development aid: only the families added by the coverage audit (R, N, P, S, T)
+        family_rare_values(run);
+        varidx::family_var_indices(run);
+        varidx::family_lookups(run);
+        varidx::family_stop_counts(run);
+        varidx::family_mode_client(run);
+        run.cap_hit("C13_ONLY_NEW set: families A-M not run");
+        return;
+    }
     let n = run.tier.pick(4usize, 5usize);
     let al = structural_alphabet();
     let trees = trees_up_to(&al, n);
@@ -1172,6 +1192,18 @@ fn body(run: &Run, replay: Option<&Value>) {
     family_var_index_map(run);
     eprintln!("[c13] M done at {:.1}s", run.elapsed());
 
+    // N: every index the variable-paint code follows; P: record lookups; S: stop counts
+    family_rare_values(run);
+    eprintln!("[c13] R done at {:.1}s", run.elapsed());
+    varidx::family_var_indices(run);
+    eprintln!("[c13] N done at {:.1}s", run.elapsed());
+    varidx::family_lookups(run);
+    eprintln!("[c13] P done at {:.1}s", run.elapsed());
+    varidx::family_stop_counts(run);
+    eprintln!("[c13] S done at {:.1}s", run.elapsed());
+    varidx::family_mode_client(run);
+    eprintln!("[c13] T done at {:.1}s", run.elapsed());
+
     // H: degenerate gradient geometry and colour lines ("returns and is balanced" only)
     family_gradients(run);
     eprintln!("[c13] H done at {:.1}s", run.elapsed());
@@ -1187,7 +1219,7 @@ fn body(run: &Run, replay: Option<&Value>) {
     let watchdog = Duration::from_secs(120);
     let mut kinds: Vec<String> = UNARIES.iter().map(|u| format!("{u:?}")).collect();
     kinds.extend(["CompositeSource", "CompositeBackdrop", "ColrLayers", "ColrGlyph"].map(String::from));
-    let depths: Vec<usize> = vec![63, 64, 65, 1000];
+    let depths: Vec<usize> = vec![63, 64, 65, 70, 1000];
     run.bound("D.chains", json!({"kinds": kinds, "depths": depths, "cache_answers": [false,true], "cpu_limit_s_per_paint": CHAIN_CPU_S, "wall_backstop_s": watchdog.as_secs(), "note": "each case in its own worker process"}));
     let mut jobs = vec![];
     for k in &kinds {
@@ -1195,9 +1227,6 @@ fn body(run: &Run, replay: Option<&Value>) {
             // the Glyph chain is already known to be exponential from d ~ 30: one watchdog kill per
             // depth is enough in the quick tier
             for cache_ok in [false, true] {
-                if quick && k != "Glyph" && !k.starts_with("Co") && !matches!(k.as_str(), "Translate" | "VarTransform" | "RotateAroundCenter") && *d != 65 {
-                    continue;
-                }
                 jobs.push((k.clone(), *d, cache_ok));
             }
         }
@@ -1425,12 +1454,18 @@ fn font_with_colr(colr: &[u8]) -> Vec<u8> {
 
 /// paint glyph 1 of a font with that COLR table under both cache answers; reports violations
 fn judge_raw(run: &Run, colr: &[u8], case: &Value, acc: &mut Acc) {
+    judge_raw_at(run, colr, case, &[], acc);
+}
+
+/// as `judge_raw`, at the given location; returns the number of runs that painted Ok
+fn judge_raw_at(run: &Run, colr: &[u8], case: &Value, coords: &[f32], acc: &mut Acc) -> u32 {
     let font = font_with_colr(colr);
+    let ok_before = acc.ok;
     for cache_ok in [false, true] {
         acc.runs += 1;
         let mut case = case.clone();
         case["cache_ok"] = json!(cache_ok);
-        match paint(&font, 1, None, &[], cache_ok, true, 10_000) {
+        match paint(&font, case["gid"].as_u64().unwrap_or(1) as u32, None, coords, cache_ok, true, 10_000) {
             Ok(p) => {
                 run.trans(p.events.len() as u64 + 1);
                 match &p.result {
@@ -1443,7 +1478,7 @@ fn judge_raw(run: &Run, colr: &[u8], case: &Value, acc: &mut Acc) {
                     Some(Err(_)) => acc.err += 1,
                     None => {}
                 }
-                let d = digest_of(&("trunc", case["format"].as_u64(), case["wrapped"].as_bool(), case["mode"].as_str(), p.result.as_ref().map(|r| r.is_ok()), &p.events, colr.len()));
+                let d = digest_of(&("trunc", case["format"].as_u64(), case["wrapped"].as_bool(), case["mode"].as_str(), case["value"].as_u64(), p.result.as_ref().map(|r| r.is_ok()), &p.events, colr.len()));
                 acc.all.insert(d);
                 if dyck(&p.events).map(|n| n > 0).unwrap_or(false) {
                     acc.nontrivial.insert(d);
@@ -1457,6 +1492,7 @@ fn judge_raw(run: &Run, colr: &[u8], case: &Value, acc: &mut Acc) {
             ),
         }
     }
+    (acc.ok - ok_before) as u32
 }
 
 /// one (format, wrapped, var_store) table: returns (table bytes, position of the referring offset field,
@@ -1518,6 +1554,217 @@ fn run_truncation(run: &Run, fmt: u8, wrapped: bool, var_store: bool, acc: &mut 
         n += 1;
     }
     n
+}
+
+// ---------------------------------------------------------------------------
+// family R: rarely used / reserved values of every format, flag and enum byte the paint code
+// dispatches on. A table compiled by write-fonts is patched at one byte with all 256 values:
+//  R1 the format byte of the paint record (each of the 32 formats, rooted directly and below a
+//     PaintTranslate): every record is re-read as every other format and as unknown formats;
+//  R2 PaintComposite.compositeMode; R3 ColorLine.extend of the six gradient formats;
+//  R4 ClipBox.format; R5 DeltaSetIndexMap.format and .entryFormat (reserved bits, every entry size /
+//  bit count) under a variable paint; R6 the low byte of ItemVariationStore.format and of
+//  ItemVariationData.wordDeltaCount (high byte: LONG_WORDS flag) — R5/R6 painted at [] and [0.5].
+// Oracle: no panic, bounded callbacks, Ok only with a well-nested stream; R2/R3/R4: every value
+// still paints Ok (an unknown enum value is data for the client, not a structural error).
+// ---------------------------------------------------------------------------
+
+/// the structural fields of a paint record of format `f` (position relative to the record start, width
+/// in bytes, Some(base) when it is an offset relative to the record start)
+fn record_fields(f: u8, size: usize) -> Vec<(&'static str, usize, usize, bool)> {
+    let mut v = vec![];
+    match f {
+        1 => {
+            v.push(("PaintColrLayers.numLayers", 1, 1, false));
+            v.push(("PaintColrLayers.firstLayerIndex", 2, 4, false));
+        }
+        2 | 3 => v.push(("PaintSolid.paletteIndex", 1, 2, false)),
+        4..=9 => v.push(("gradient.colorLineOffset", 1, 3, true)),
+        10 => {
+            v.push(("PaintGlyph.paintOffset", 1, 3, true));
+            v.push(("PaintGlyph.glyphID", 4, 2, false));
+        }
+        11 => v.push(("PaintColrGlyph.glyphID", 1, 2, false)),
+        12 | 13 => {
+            v.push(("PaintTransform.paintOffset", 1, 3, true));
+            v.push(("PaintTransform.transformOffset", 4, 3, true));
+        }
+        14..=31 => v.push(("transform paint.paintOffset", 1, 3, true)),
+        _ => {
+            v.push(("PaintComposite.sourcePaintOffset", 1, 3, true));
+            v.push(("PaintComposite.backdropPaintOffset", 5, 3, true));
+        }
+    }
+    // variable formats other than VarTransform end with varIndexBase
+    if f % 2 == 1 && f != 1 && f != 11 && f != 13 {
+        v.push(("varIndexBase", size - 4, 4, false));
+    }
+    v
+}
+
+/// boundary values for a field of `width` bytes holding `orig`; `target_len`: for an offset, the
+/// value that would point exactly at the end of the table
+fn field_values(width: usize, orig: u64, target_len: Option<u64>) -> Vec<u64> {
+    let max = if width >= 8 { u64::MAX } else { (1u64 << (8 * width)) - 1 };
+    if width == 1 {
+        return (0..=255).collect();
+    }
+    let mut v = vec![0, 1, 2, orig.saturating_sub(1), orig, orig + 1, orig + 2, max >> 1, (max >> 1) + 1, max - 1, max];
+    if let Some(t) = target_len {
+        v.extend([t.saturating_sub(2), t.saturating_sub(1), t, t + 1]);
+    }
+    v.retain(|x| *x <= max);
+    v.sort();
+    v.dedup();
+    v
+}
+
+fn read_be(b: &[u8], pos: usize, width: usize) -> u64 {
+    b[pos..pos + width].iter().fold(0u64, |a, x| (a << 8) | *x as u64)
+}
+
+struct RareJob {
+    what: String,
+    table: Vec<u8>,
+    pos: usize,
+    width: usize,
+    /// for offsets: the position the offset is relative to
+    offset_base: Option<usize>,
+    locs: Vec<Vec<f32>>,
+    must_ok: bool,
+}
+
+fn family_rare_values(run: &Run) {
+    let mut jobs: Vec<RareJob> = vec![];
+    let formats = format_table();
+    let locs_var: Vec<Vec<f32>> = vec![vec![], vec![0.5]];
+    for (f, size, node, _, _) in &formats {
+        for wrapped in [false, true] {
+            let var = uses_var(node);
+            let Ok((bytes, field, width, base, p, _)) = truncation_table(*f, wrapped, var) else {
+                run.machinery_error(&format!("family R: no table for format {f}"));
+                continue;
+            };
+            let locs: Vec<Vec<f32>> = if var { locs_var.clone() } else { vec![vec![]] };
+            let tag = format!("format {f}{}", if wrapped { " below PaintTranslate" } else { "" });
+            jobs.push(RareJob { what: format!("R1 paint format byte ({tag})"), table: bytes.clone(), pos: p, width: 1, offset_base: None, locs: locs.clone(), must_ok: false });
+            if *f == 32 {
+                jobs.push(RareJob { what: format!("R2 composite mode ({tag})"), table: bytes.clone(), pos: p + 4, width: 1, offset_base: None, locs: locs.clone(), must_ok: true });
+            }
+            if (4..=9).contains(f) {
+                let line = p + be24(&bytes, p + 1);
+                jobs.push(RareJob { what: format!("R3 colour line extend ({tag})"), table: bytes.clone(), pos: line, width: 1, offset_base: None, locs: locs.clone(), must_ok: true });
+                jobs.push(RareJob { what: format!("R8 colour line numStops ({tag})"), table: bytes.clone(), pos: line + 1, width: 2, offset_base: None, locs: locs.clone(), must_ok: false });
+            }
+            if !wrapped {
+                for (name, rel, w, is_off) in record_fields(*f, *size) {
+                    jobs.push(RareJob { what: format!("R8 {name} (format {f})"), table: bytes.clone(), pos: p + rel, width: w, offset_base: is_off.then_some(p), locs: locs.clone(), must_ok: false });
+                }
+                if *f == 13 {
+                    let aff = p + be24(&bytes, p + 4);
+                    jobs.push(RareJob { what: "R8 VarAffine2x3.varIndexBase".into(), table: bytes.clone(), pos: aff + 24, width: 4, offset_base: None, locs: locs.clone(), must_ok: false });
+                }
+                // the offset that refers to the record (BaseGlyphPaint.paintOffset)
+                jobs.push(RareJob { what: format!("R8 BaseGlyphPaint.paintOffset (format {f})"), table: bytes.clone(), pos: field, width, offset_base: Some(base), locs: locs.clone(), must_ok: false });
+            }
+        }
+    }
+    // a table with every optional part: variable translate over a variable gradient, below a variable
+    // clip box, VarIndexMap with 12 two-byte entries, a normal store; and one with a layer list
+    let rich = Graph { bases: vec![Node::Unary(Un::VarTranslate, Box::new(Node::Fill(Fill::VarLinear))), Node::ColrLayers(0, 2)], layers: vec![Node::Fill(Fill::Solid), Node::Fill(Fill::VarSolid)], clip: true, var_store: true, v0: Some((0, 2, 2)), var_map: Some((12, 2, 8)), store_empty: false, clip_var: true, store_shape: None };
+    match write_fonts::dump_table(&build_colr(&rich)) {
+        Ok(bytes) => {
+            let blist = be32(&bytes, 14);
+            let llist = be32(&bytes, 18);
+            let clip_list = be32(&bytes, 22);
+            let clip_box = clip_list + be24(&bytes, clip_list + 5 + 4);
+            let map = be32(&bytes, 26);
+            let store = be32(&bytes, 30);
+            let regions = store + be32(&bytes, store + 2);
+            let ivd = store + be32(&bytes, store + 8);
+            let mut add = |what: &str, pos: usize, width: usize, offset_base: Option<usize>, must_ok: bool| {
+                jobs.push(RareJob { what: what.to_string(), table: bytes.clone(), pos, width, offset_base, locs: locs_var.clone(), must_ok });
+            };
+            add("R7 COLR.version (high byte)", 0, 1, None, false);
+            add("R7 COLR.version (low byte)", 1, 1, None, false);
+            add("R4 ClipBox.format", clip_box, 1, None, true);
+            add("R4 ClipList.format", clip_list, 1, None, true);
+            add("R5 DeltaSetIndexMap.format", map, 1, None, true);
+            add("R5 DeltaSetIndexMap.entryFormat", map + 1, 1, None, true);
+            add("R6 ItemVariationStore.format (low byte)", store + 1, 1, None, true);
+            add("R6 ItemVariationData.wordDeltaCount (high byte, LONG_WORDS)", ivd + 2, 1, None, true);
+            add("R6 ItemVariationData.wordDeltaCount (low byte)", ivd + 3, 1, None, true);
+            add("R9 COLR.numBaseGlyphRecords", 2, 2, None, false);
+            add("R9 COLR.baseGlyphRecordsOffset", 4, 4, Some(0), false);
+            add("R9 COLR.layerRecordsOffset", 8, 4, Some(0), false);
+            add("R9 COLR.numLayerRecords", 12, 2, None, false);
+            add("R9 COLR.baseGlyphListOffset", 14, 4, Some(0), false);
+            add("R9 COLR.layerListOffset", 18, 4, Some(0), false);
+            add("R9 COLR.clipListOffset", 22, 4, Some(0), false);
+            add("R9 COLR.varIndexMapOffset", 26, 4, Some(0), false);
+            add("R9 COLR.itemVariationStoreOffset", 30, 4, Some(0), false);
+            add("R9 BaseGlyphList.numBaseGlyphPaintRecords", blist, 4, None, false);
+            add("R9 BaseGlyphPaint[0].glyphID", blist + 4, 2, None, false);
+            add("R9 BaseGlyphPaint[1].glyphID", blist + 10, 2, None, false);
+            add("R9 BaseGlyphPaint[1].paintOffset", blist + 12, 4, Some(blist), false);
+            add("R9 LayerList.numLayers", llist, 4, None, false);
+            add("R9 LayerList.paintOffsets[0]", llist + 4, 4, Some(llist), false);
+            add("R9 LayerList.paintOffsets[1]", llist + 8, 4, Some(llist), false);
+            add("R9 ClipList.numClips", clip_list + 1, 4, None, false);
+            add("R9 Clip.startGlyphID", clip_list + 5, 2, None, false);
+            add("R9 Clip.endGlyphID", clip_list + 7, 2, None, false);
+            add("R9 Clip.clipBoxOffset", clip_list + 9, 3, Some(clip_list), false);
+            add("R9 ClipBoxFormat2.varIndexBase", clip_box + 9, 4, None, true);
+            add("R9 DeltaSetIndexMap.mapCount", map + 2, 2, None, true);
+            add("R9 ItemVariationStore.variationRegionListOffset", store + 2, 4, Some(store), true);
+            add("R9 ItemVariationStore.itemVariationDataCount", store + 6, 2, None, true);
+            add("R9 ItemVariationStore.itemVariationDataOffsets[0]", store + 8, 4, Some(store), true);
+            add("R9 VariationRegionList.axisCount", regions, 2, None, true);
+            add("R9 VariationRegionList.regionCount", regions + 2, 2, None, true);
+            add("R9 ItemVariationData.itemCount", ivd, 2, None, true);
+            add("R9 ItemVariationData.regionIndexCount", ivd + 4, 2, None, true);
+            add("R9 ItemVariationData.regionIndexes[0]", ivd + 6, 2, None, true);
+        }
+        Err(e) => run.machinery_error(&format!("family R: {e:?}")),
+    }
+    run.bound(
+        "R.rare_values",
+        json!({"one_byte_fields": "all 256 values", "wider_fields": "0, 1, 2, orig-1..orig+2, half range, half range + 1, max-1, max; offsets also the values that point 2 and 1 bytes before, exactly at, and 1 byte past the end of the table",
+               "patched_fields": jobs.iter().map(|j| j.what.clone()).collect::<Vec<_>>(), "cache_answers": [false, true], "locations_for_variable_tables": [[], [0.5]],
+               "glyphs_painted": "glyph 1 (and glyph 2 of the table with every optional part)"}),
+    );
+    let tables = AtomicU64::new(0);
+    jobs.par_iter().for_each(|j| {
+        let mut acc = Acc::new();
+        let orig = read_be(&j.table, j.pos, j.width);
+        let target_len = j.offset_base.map(|b| (j.table.len() - b) as u64);
+        for v in field_values(j.width, orig, target_len) {
+            let mut b = j.table.clone();
+            b[j.pos..j.pos + j.width].copy_from_slice(&v.to_be_bytes()[8 - j.width..]);
+            tables.fetch_add(1, Ordering::Relaxed);
+            for loc in &j.locs {
+                let case = json!({"kind":"rare","what":j.what,"mode":j.what,"value":v,"position":j.pos,"width":j.width,"coords":loc,"must_ok":j.must_ok,"gid":1,"colr_hex":hex(&b)});
+                if j.what.starts_with("R9") {
+                    // the table with every optional part: glyph 2 is the PaintColrLayers root
+                    let mut c2 = case.clone();
+                    c2["gid"] = json!(2);
+                    c2["mode"] = json!(format!("{} gid 2", j.what));
+                    judge_raw_at(run, &b, &c2, loc, &mut acc);
+                }
+                let ok = judge_raw_at(run, &b, &case, loc, &mut acc);
+                if j.must_ok && ok != 2 {
+                    run.violation(
+                        &format!("ColorGlyph::paint fails on a value that is data, not structure: {}", j.what),
+                        &format!("{} = {v} at COLR byte {}, location {loc:?}: {ok} of 2 paint runs returned Ok", j.what, j.pos),
+                        case,
+                    );
+                }
+            }
+        }
+        flush(run, acc, "R");
+    });
+    run.count("R.patched_fields", jobs.len() as u64);
+    run.count("R.patched_tables", tables.load(Ordering::Relaxed));
 }
 
 fn family_truncation(run: &Run) {
@@ -1827,6 +2074,30 @@ fn replay_case(run: &Run, case: &Value) {
             println!("replay: {} deviation cases at offset {off}", st.cases);
         }
         "v0" => println!("replay: re-run the tier for the v0 family"),
+        "varidx" => varidx::replay_var_case(run, case),
+        "rare" => {
+            let colr: Vec<u8> = (0..case["colr_hex"].as_str().unwrap_or("").len() / 2).filter_map(|i| u8::from_str_radix(&case["colr_hex"].as_str().unwrap()[2 * i..2 * i + 2], 16).ok()).collect();
+            let coords: Vec<f32> = case["coords"].as_array().map(|a| a.iter().map(|v| v.as_f64().unwrap_or(0.0) as f32).collect()).unwrap_or_default();
+            let mut acc = Acc::new();
+            let ok = judge_raw_at(run, &colr, case, &coords, &mut acc);
+            let what = case["what"].as_str().unwrap_or("");
+            if case["must_ok"].as_bool().unwrap_or(false) && ok != 2 {
+                run.violation(&format!("ColorGlyph::paint fails on a value that is data, not structure: {what}"), &format!("{ok} of 2 paint runs returned Ok"), case.clone());
+            }
+            println!("replay: {ok} of 2 paint runs Ok");
+        }
+        "lookup" => {
+            varidx::family_lookups(run);
+            println!("replay: family P re-run");
+        }
+        "mode_client" => {
+            varidx::family_mode_client(run);
+            println!("replay: family T re-run");
+        }
+        "stops" => {
+            varidx::family_stop_counts(run);
+            println!("replay: family S re-run");
+        }
         k => println!("replay: unknown kind {k}"),
     }
 }
